@@ -11,12 +11,25 @@ Definition foreign_mailbox (d : chan_db) (a m : string) : bool :=
   existsb (fun r => seqb (mb_id r) m && negb (seqb (mb_app r) a)) (mailboxes d).
 
 Definition kf1_cmd (s : state) (c : nat) (msg : command) : bool :=
-  match c_bound (conn_of s c), m_type msg with
-  | Some (a, _), Some TOpen
-  | Some (a, _), Some TClose =>
+  let cs := conn_of s c in
+  match c_bound cs, m_type msg with
+  | Some (a, _), Some TOpen =>
       match m_mailbox msg with
       | Some m => foreign_mailbox (chan_w s) a m
       | None => false
+      end
+  | Some (a, _), Some TClose =>
+      (* a close on a connection that holds the mailbox does not go through
+         open_mailbox; otherwise the mailbox is the named one or the one the
+         connection remembers *)
+      match c_mailbox cs with
+      | Some _ => false
+      | None =>
+          match m_mailbox msg, c_mailbox_id cs with
+          | Some m, _ => foreign_mailbox (chan_w s) a m
+          | None, Some m => foreign_mailbox (chan_w s) a m
+          | None, None => false
+          end
       end
   | _, _ => false
   end.
